@@ -327,6 +327,8 @@ def units():
             for cfg, tier in (('main14dbg', 'quick' if name in ('push_back_rE', 'insert_pE_rE', 'erase_pE_pE', 'resize_u8', 'emplace_back_rE', 'clear_v') else 'thorough'),
                               ('main20', 'quick' if name in ('push_back_rE', 'insert_pE_rrE', 'erase_pE') else 'thorough'),
                               ('main11dbg', 'quick' if name in ('push_back_rrE', 'insert_pE_u8_rE', 'erase_pE', 'assign_u8_rE', 'emplace_pE_rE') else 'thorough')):
+                if cfg == 'main20' and name.startswith('op_lt'):
+                    continue            # C++20: the relational operators are synthesised from operator<=> (not lowered: std::lexicographical_compare_three_way)
                 if cfg in ('main14dbg', 'main11dbg') and name.startswith(('append', 'pop_back_val')):
                     continue            # append is part of the non-standard extras: not public in this configuration
                 v = dict(u); v['defs'] = dict(u['defs'])
